@@ -945,12 +945,12 @@ PROPS = {
         'vx': ['U6'],
         'extra': [extra_c10_bounded, extra_c10_perm, extra_c10_members, extra_gen_differential('order')],
         'witness': witness_u6,
-        'technique': 'Verus contract (requires/ensures/decreases, loop invariant, proof hints) on the real Kuhn augmenting step + lemma for its caller',
-        'level_text': 'Duplicate-key clause of C10 only ("each physical key/value pair must be accounted for by some member" - no pair is handed to two members, no member gets two pairs): Verus proves for the real augment_single_entry_assignment, for every compatibility matrix and every search state, that owners are compatible claims, pairs already visited keep their owner, failure leaves the assignment unchanged, success gives the searching claim exactly one new unvisited pair, no other claim ever owns two pairs, no claim appears from nowhere, matched claims stay matched; termination (decreasing count of unvisited pairs); index safety. A lemma derives for the calling loop that the assignment stays an injective matching. Completeness of the search (false => no perfect matching) is only cross-checked against brute force on small matrices (bounded, not counted). Order-independence of the verdict itself is outside both verifiers (it is produced by the validator visitor); a bounded stand-in runs all pair permutations of small maps through the real validator (labelled bounded) and found that the verdict IS order-dependent for members keyed by type - known finding F18, recorded instance by instance so that new instances are still reported. A second bounded stand-in permutes the MEMBERS of the schema (pairwise disjoint keys) together with the pairs, for both validators: the CBOR validator is order-independent there, the JSON validator is not (known finding F36, 94 recorded instances).',
-        'level_note': 'Trusted: Verus+Z3, vstd slice/Vec specs. Extraction rewrites: R2 (Option::is_none_or closure inlined to match), R6 (Self:: dropped, associated fn lifted), R9 (for-range with continue desugared to while with the increment first). Unverified: try_reassign_failed_single_entries (builds the matrix by running the validator and commits the assignment), the ledger bookkeeping on the validator struct, JSON side (serde_json map has no duplicate keys).',
+        'technique': 'Verus contracts (requires/ensures/decreases, loop invariants, proof hints) on the real Kuhn augmenting step and on the driver loop of its caller (R7 fragment, checked against the contract of the step)',
+        'level_text': 'Duplicate-key clause of C10 only ("each physical key/value pair must be accounted for by some member" - no pair is handed to two members, no member gets two pairs): Verus proves for the real augment_single_entry_assignment, for every compatibility matrix and every search state, that owners are compatible claims, pairs already visited keep their owner, failure leaves the assignment unchanged, success gives the searching claim exactly one new unvisited pair, no other claim ever owns two pairs, no claim appears from nowhere, matched claims stay matched; termination (decreasing count of unvisited pairs); index safety. The calling loop itself (the driver loop of try_reassign_failed_single_entries, extracted as the R7 fragment reassign_driver_loop) is under contract as well and is checked against the CONTRACT of the step: a run that reaches the end of the loop holds an injective matching in which every claim owns exactly one compatible pair (three labelled assertions after the loop). Completeness of the search (false => no perfect matching) is only cross-checked against brute force on small matrices (bounded, not counted). Order-independence of the verdict itself is outside both verifiers (it is produced by the validator visitor); a bounded stand-in runs all pair permutations of small maps through the real validator (labelled bounded) and found that the verdict IS order-dependent for members keyed by type - known finding F18, recorded instance by instance so that new instances are still reported. A second bounded stand-in permutes the MEMBERS of the schema (pairwise disjoint keys) together with the pairs, for both validators: the CBOR validator is order-independent there, the JSON validator is not (known finding F36, 94 recorded instances).',
+        'level_note': 'Trusted: Verus+Z3, vstd slice/Vec specs. Extraction rewrites: R2 (Option::is_none_or closure inlined to match), R6 (Self:: dropped, associated fn lifted), R9 (for-range with continue desugared to while with the increment first). Unverified: try_reassign_failed_single_entries outside its driver loop (builds the matrix by running the validator, commits the assignment), the ledger bookkeeping on the validator struct, JSON side (serde_json map has no duplicate keys).',
         'design_ref': 'DESIGN.md 4 U6',
-        'scope': 'CBORValidator::augment_single_entry_assignment',
-        'assumptions': ['the caller starts each search with an all-false visited vector and a rectangular matrix (read off the code, not verified)'],
+        'scope': 'CBORValidator::augment_single_entry_assignment; driver loop of CBORValidator::try_reassign_failed_single_entries',
+        'assumptions': ['at the boundary of the driver-loop fragment the compatibility matrix has one row per claim and one column per pair (read off the three statements above the fragment, not verified); that each search starts with an all-false visited vector is now PROVED inside the fragment'],
     },
     'C09': {
         'vx': ['U5', 'U7'],
